@@ -1407,6 +1407,26 @@ def _run(ctx, coq_ok, base_tmp):
             with Redirect(os.path.join(root, *sc.home), None if sc.xdg is None else os.path.join(root, *sc.xdg), os.path.join(root, *sc.cwd)):
                 clear_caches()
                 info["direct"] = impl_direct(sc, root, rng)
+                # the derived keys follow the effective raw values (they are recomputed after the inline directives)
+                for (p, _t), d0 in zip(sc.sql, info["direct"]):
+                    if d0[0] != "ok":
+                        continue
+                    c = d0[2]
+                    core = c._configs["core"]
+                    want = {"rule_allowlist": split_csv(core.get("rules")) if isinstance(core.get("rules"), (str, list, type(None))) else None,
+                            "rule_denylist": split_csv(core.get("exclude_rules")) if isinstance(core.get("exclude_rules"), (str, list, type(None))) else None,
+                            "color": False if core.get("nocolor") is True else True if core.get("nocolor") is False else None}
+                    got = {k: core.get(k) for k in want}
+                    if core.get("dialect") is not None and isinstance(core.get("dialect"), str):
+                        want["dialect_obj"] = core.get("dialect")
+                        got["dialect_obj"] = getattr(core.get("dialect_obj"), "name", None)
+                    ctx.case(None, bucket="derived-keys")
+                    bad_keys = [k for k in want if want[k] is not None or k == "color" if want[k] != got[k]]
+                    # color is computed once in __init__ (before the inline directives): only checked when no inline nocolor
+                    if bad_keys:
+                        ctx.violation("derived-key-stale", "a derived core key does not follow the effective setting it is computed from",
+                                      {"input": sc.describe(), "file": "/".join(p), "want": {k: want[k] for k in bad_keys}, "got": {k: got[k] for k in bad_keys}},
+                                      attrs={"keys": ",".join(sorted(bad_keys))})
                 # isolation by refinement, no model involved: every file again, alone, with cold caches
                 for i, (p, _t) in enumerate(sc.sql):
                     one = copy.copy(sc)
